@@ -17,7 +17,7 @@ LEVEL = "exploration"
 RULE = (
     "For each arithmetic calendar id (ISO, Gregorian, Julian, Coptic, 8 Hijri, 2 Hebrew, Persian Simple, Persian "
     "Arithmetic >= 475): every year's tables and every month start are compared with an independent reference "
-    "implementation; day level: ISO vs datetime.date over all 3652059 ordinals (both tiers), other calendars over a "
+    "implementation, ascending and again in descending order around every 1024-year cache-slot boundary; day level: ISO vs datetime.date over all 3652059 ordinals (both tiers), other calendars over a "
     "seed-offset stride-97 day sample (quick) or every day (thorough). Non-trivial = first/last day of a year or "
     "month, a date in a leap year, or a Hebrew year with irregular Heshvan/Kislev; distinct by construction."
 )
@@ -175,6 +175,16 @@ def task_years(ctx: Ctx, cal: str, ylo: int, yhi: int, ends: bool = True) -> Non
         ctx.case("year", {"cal": cal, "y": y, "ends": ends})
 
 
+def task_years_desc(ctx: Ctx, cal: str, amin: int, ymax: int, ends: bool = False) -> None:
+    """The same answers must come out when years are visited in descending order (calculators memoise per year in
+    1024-slot tables, so a year is then computed while its slot and its neighbours' slots hold later years): the
+    years around every 1024-year slot boundary plus a seed-offset stride, over the whole calendar."""
+    off = sub_seed(ctx.seed, "c02desc", cal) % 29
+    for y in range(ymax, amin - 1, -1):
+        if (y & 1023) in (1021, 1022, 1023, 0, 1, 2) or (y - off) % 29 == 0:
+            ctx.case("year", {"cal": cal, "y": y, "ends": ends})
+
+
 def task_days(ctx: Ctx, cal: str, lo: int, hi: int, step: int, offset: int) -> None:
     """Day-level comparison; the reference cursor advances incrementally when step == 1."""
     c = _cal(cal)
@@ -249,6 +259,7 @@ def tasks(tier: str, seed: int) -> list[Task]:
             b = min(c.max_year, a + ysz - 1)
             if a <= b:
                 out.append(Task("task_years", {"cal": cid, "ylo": a, "yhi": b, "ends": tier == "thorough"}, f"years-{cid}-{p}"))
+        out.append(Task("task_years_desc", {"cal": cid, "amin": amin, "ymax": c.max_year, "ends": tier == "thorough"}, f"years-desc-{cid}"))
         lo, hi = c._min_days, c._max_days
         if tier == "thorough":
             parts = 12
